@@ -43,6 +43,33 @@ func profileByName(name string) Profile {
 		p.Buckets = []string{"b1", "b2"}
 		p.Txs = 18
 		p.ScanHeavy = true
+	case "setamb":
+		// sets whose bucket / key / member byte strings concatenate ambiguously:
+		// ('s','ab','c') ('sa','b','c') ('s','a','bc') ('s','ab','') ('s','a','b') ...
+		p.WKV, p.WList, p.WSet, p.WZSet = 0, 0, 1, 0
+		p.Buckets = []string{"s", "sa"}
+		p.Keys = []string{"a", "ab", "b"}
+		p.Members = []string{"", "b", "bc", "c", "x", "1x"}
+		p.Txs, p.OpsMin, p.OpsMax = 14, 2, 6
+	case "setraw":
+		// set transactions that remove a member and then move / re-add it (calls that validate against
+		// structures the transaction already modified): impl = model must hold (spec: known finding F21)
+		p.WKV, p.WList, p.WSet, p.WZSet = 0, 0, 1, 0
+		p.ReadAfterWrite = true
+		p.Buckets = []string{"b1", "b2"}
+		p.Keys = []string{"a", "ab"}
+		p.Members = []string{"m1", "m2", "m3"}
+		p.Txs, p.OpsMin, p.OpsMax = 12, 2, 6
+	case "framemerge":
+		// adversarial names across buckets and structures, with Merge and reopen (no lists: known finding F14)
+		p.WKV, p.WList, p.WSet, p.WZSet = 3, 0, 3, 2
+		p.Buckets = []string{"s", "sa", "a", "ab", "b"}
+		p.Keys = []string{"ab", "b", "a", "bc", "c", "k"}
+		p.Members = []string{"c", "m", "bc", ""}
+		p.Txs = 16
+		p.Merge = 30
+		p.Reopen = 25
+		p.Segs = []int{150, 200, 300}
 	case "listidx":
 		// transactions holding several LSet / LTrim calls on different lists
 		p.WKV, p.WList, p.WSet, p.WZSet = 0, 1, 0, 0
